@@ -381,6 +381,9 @@ class EptMapResult:
 
         towers: t.List[t.List[Floor]] = []
         for _ in range(tower_count):
+            if not view:
+                raise ValueError(f"EptMapResult contains {len(towers)} towers but {tower_count} were expected")
+
             tower_length = int.from_bytes(view[:8], byteorder="little")
             padding = -(tower_length + 4) % 8
 
